@@ -1,5 +1,8 @@
 import RV.C19.LemmasOps
 import RV.C19.LemmasTotal
+import RV.C19.LemmasG
+import RV.C19.LemmasN3
+import RV.C19.LemmasSep4
 /-
   C19 — "An RDF Collection behaves like the Python list it represents."
 
@@ -411,6 +414,83 @@ theorem history_refines_witness : ¬ Statement_history_refines := by
   unfold Out.agrees
   decide
 
+/-! ### Round g (d): exactly where `__setitem__` deviates from the list (C19-K1 characterised) -/
+
+/-- `c[i] = x` answers what the list answers for every integer index except exactly `i = len(c)`. -/
+def Statement_setitem_deviates_iff : Prop :=
+  ∀ (s : St) (h : Term) (xs : List Term) (i : Int) (x : Term), WF s h → asList s.g h = .ok xs →
+    (((step h s (.setItem i x)).2).agrees (specStep xs (.setItem i x)).2 ↔ i ≠ (xs.length : Int))
+
+/-- What `c[len(c)] = x` does instead of raising: it is accepted, writes the single triple
+    `(rdf:nil | the empty head) rdf:first x`, from then on the collection *reads* as `xs ++ [x]`
+    (`Graph.items` walks through rdf:nil), and the graph no longer holds a well-formed chain. -/
+def Statement_setitem_at_len_effect : Prop :=
+  ∀ (s : St) (h : Term) (xs : List Term) (x : Term), WF s h → asList s.g h = .ok xs →
+    (step h s (.setItem (xs.length : Int) x)).2 = .unit ∧
+      (step h s (.setItem (xs.length : Int) x)).1.g = gset s.g (if xs = [] then h else NIL) FIRST x ∧
+      iter (step h s (.setItem (xs.length : Int) x)).1.g h = .ok (xs ++ [x]) ∧
+      ¬ WF (step h s (.setItem (xs.length : Int) x)).1 h
+
+theorem setitem_at_len_effect : Statement_setitem_at_len_effect := by
+  intro s h xs x ⟨ps, inv⟩ ha
+  have hxs := asList_of_inv inv ha
+  subst hxs
+  obtain ⟨h1, h2, h3⟩ := inv.setItem_at_len x
+  have hc : cellAtLen h ps = if ps.map Prod.snd = [] then h else NIL := by
+    unfold cellAtLen
+    cases ps <;> simp
+  simp only [List.length_map, step, h1, gOf]
+  refine ⟨trivial, by rw [hc], h2, ?_⟩
+  rintro ⟨ps', inv'⟩
+  exact h3 ⟨ps', inv'.chain⟩
+
+theorem setitem_deviates_iff : Statement_setitem_deviates_iff := by
+  intro s h xs i x wf ha
+  constructor
+  · intro hag e
+    subst e
+    have h1 := (setitem_at_len_effect s h xs x wf ha).1
+    rw [h1] at hag
+    have hp : pyIndex xs.length (xs.length : Int) = none := by
+      unfold pyIndex
+      rw [if_pos (by omega), if_neg (by omega)]
+    simp only [specStep, hp] at hag
+    rcases hag with hag | ⟨hag, _⟩ <;> cases hag
+  · intro hne
+    exact (coll_refines_partial s h xs (.setItem i x) wf ha (by simpa [isSetAtLen] using hne)).1
+
+/-- non-vacuity / concrete instance: `c[1] = 11` on `[10]` reads as `[10, 11]` afterwards -/
+example : iter (step 100 ⟨exG1, 1000⟩ (.setItem 1 11)).1.g 100 = .ok [10, 11] := rfl
+
+/-! ### Round g (b): the text of `Collection.n3()` means the list -/
+
+/-- On a well-formed chain denoting `xs`, `c.n3()` is the text `"( " + " ".join(member texts) + " )"` of
+    exactly the members of `xs` in order, and a reader of N3 list syntax (`readN3`: skip blanks, stop at
+    `)`, otherwise lex one term) gets `xs` back from it — for every term-level codec `tok`/`lex` that is
+    self-delimiting in front of a blank (`LexOK`; the members' own `n3()` is not part of this property).
+    On a cyclic chain `n3()` raises ValueError like the iteration it is built on. -/
+def Statement_n3_means_list : Prop :=
+  ∀ (tok : Term → List Char) (lex : List Char → Option (Term × List Char)), LexOK tok lex →
+    (∀ (s : St) (h : Term) (xs : List Term), WF s h → asList s.g h = .ok xs →
+      n3 tok s.g h = .ok (n3Text tok xs) ∧ readN3 lex (n3Text tok xs) = some xs) ∧
+    (∀ (g : Graph) (h : Term), Endless g h → n3 tok g h = .error .valueError)
+
+theorem n3_means_list : Statement_n3_means_list := by
+  intro tok lex ok
+  refine ⟨?_, ?_⟩
+  · intro s h xs ⟨ps, inv⟩ ha
+    have hxs := asList_of_inv inv ha
+    subst hxs
+    exact ⟨by simp only [n3, inv.chain.iter], readN3_n3Text ok _⟩
+  · intro g h he
+    simp [n3, iter, items_endless he]
+
+/-- non-vacuity: the unary codec is self-delimiting; `( aaa a aaa )` reads back as `[2, 0, 2]`, `(  )` as `[]` -/
+example : LexOK tokU lexU := lexOK_unary
+example : n3Text tokU [2, 0, 2] = "( aaa a aaa )".toList := by decide
+example : readN3 lexU "( aaa a aaa )".toList = some [2, 0, 2] := by decide
+example : n3Text tokU [] = "(  )".toList ∧ readN3 lexU "(  )".toList = some [] := by decide
+
 /-! ### Non-vacuity: a three-item list with a duplicate and a falsy member (12 = `Literal(0)`) -/
 
 def exEmpty : St := ⟨[(7, 5, 100)], 1000⟩
@@ -439,5 +519,183 @@ example : (specRun [] exOps).2 =
      .nat 0, .err .valueError, .unit, .err .valueError] := by decide
 /-- the unrelated triple is still there, and nothing else -/
 example : (run 100 exEmpty exOps).1.g = [(7, 5, 100)] := by decide
+
+/-! ### Round g (c): separation — a Collection among other lists in the same graph -/
+
+/-- `F` marks *foreign* subjects: anything the collection `h` does not own — the cells of other collections,
+    the private prefix of a collection sharing its tail with `h`, malformed list triples, … — provided the
+    head, rdf:nil and the blank nodes still to be minted are not foreign and the part of the graph outside
+    `F` (`own F g`) holds a well-formed chain for `h` (so that `WF` only has to hold for that part: the graph
+    as a whole may contain any number of other lists).
+    Then every operation on the whole graph answers exactly what it answers on the own part, changes the own
+    part exactly as it does there, mints the same blank nodes, and leaves every foreign triple untouched. -/
+def Statement_coll_separation : Prop :=
+  ∀ (F : Term → Bool) (s : St) (h : Term) (op : Op),
+    F h = false → F NIL = false → (∀ n, s.fresh ≤ n → F n = false) → WF ⟨own F s.g, s.fresh⟩ h →
+    (step h s op).2 = (step h ⟨own F s.g, s.fresh⟩ op).2 ∧
+      own F (step h s op).1.g = (step h ⟨own F s.g, s.fresh⟩ op).1.g ∧
+      (step h s op).1.fresh = (step h ⟨own F s.g, s.fresh⟩ op).1.fresh ∧
+      foreign F (step h s op).1.g = foreign F s.g
+
+theorem coll_separation : Statement_coll_separation := by
+  intro F s h op hh hn hfr ⟨ps, inv⟩
+  exact step_sep op hh hn hfr inv
+
+/-- Every history on a graph that also holds foreign list structure: all answers are the list's, the own part
+    stays a well-formed chain denoting the list, and no foreign triple is ever added, removed or reordered. -/
+def Statement_history_separation : Prop :=
+  ∀ (ops : List Op) (F : Term → Bool) (s : St) (h : Term) (xs : List Term),
+    F h = false → F NIL = false → (∀ n, s.fresh ≤ n → F n = false) →
+    WF ⟨own F s.g, s.fresh⟩ h → asList (own F s.g) h = .ok xs →
+    agreeAll (run h s ops).2 (specRun xs ops).2 ∧
+      WF ⟨own F (run h s ops).1.g, (run h s ops).1.fresh⟩ h ∧
+      asList (own F (run h s ops).1.g) h = .ok (specRun xs ops).1 ∧
+      foreign F (run h s ops).1.g = foreign F s.g
+
+/-- proved for the histories without `c[len(c)] = x` (C19-K1), like `history_refines_partial` -/
+theorem history_separation_partial :
+    ∀ (ops : List Op) (F : Term → Bool) (s : St) (h : Term) (xs : List Term),
+      F h = false → F NIL = false → (∀ n, s.fresh ≤ n → F n = false) →
+      WF ⟨own F s.g, s.fresh⟩ h → asList (own F s.g) h = .ok xs → okHist xs ops = true →
+      agreeAll (run h s ops).2 (specRun xs ops).2 ∧
+        WF ⟨own F (run h s ops).1.g, (run h s ops).1.fresh⟩ h ∧
+        asList (own F (run h s ops).1.g) h = .ok (specRun xs ops).1 ∧
+        foreign F (run h s ops).1.g = foreign F s.g := by
+  intro ops
+  induction ops with
+  | nil => intro F s h xs _ _ _ wf ha _; exact ⟨trivial, wf, ha, rfl⟩
+  | cons op ops ih =>
+    intro F s h xs hh hn hfr wf ha hok
+    simp only [okHist, Bool.and_eq_true, Bool.not_eq_eq_eq_not, Bool.not_true] at hok
+    obtain ⟨e1, e2, e3, e4⟩ := coll_separation F s h op hh hn hfr wf
+    obtain ⟨h1, h2, h3⟩ := coll_refines_partial ⟨own F s.g, s.fresh⟩ h xs op wf ha hok.1
+    have hst : (step h ⟨own F s.g, s.fresh⟩ op).1 = ⟨own F (step h s op).1.g, (step h s op).1.fresh⟩ := by
+      rw [e2, e3]
+    rw [hst] at h2 h3
+    have hfr' : ∀ n, (step h s op).1.fresh ≤ n → F n = false :=
+      fun n hle => hfr n (Nat.le_trans (step_fresh_le h s op) hle)
+    obtain ⟨h4, h5, h6, h7⟩ := ih F (step h s op).1 h _ hh hn hfr' h2 h3 hok.2
+    refine ⟨⟨?_, h4⟩, h5, h6, h7.trans e4⟩
+    show ((step h s op).2).agrees _
+    rw [e1]
+    exact h1
+
+theorem history_separation_witness : ¬ Statement_history_separation := by
+  intro H
+  have := (H [.setItem 1 11] (fun _ => false) ⟨exG1, 1000⟩ 100 [10] rfl rfl (fun _ _ => rfl)
+    ⟨_, exG1_inv⟩ rfl).1
+  have h2 : (run 100 ⟨exG1, 1000⟩ [.setItem 1 11]).2 = [.unit] := by decide
+  have h3 : (specRun [10] [.setItem 1 11]).2 = [.err .indexError] := by decide
+  rw [h2, h3] at this
+  have h := this.1
+  revert h
+  unfold Out.agrees
+  decide
+
+/-! #### two collections sharing a tail: `c1 = [10, 11, 12]` on cells 100 → 1000 → 1001, and
+    `c2 = [20, 11, 12]` whose private prefix is the one cell 200, linked to `c1`'s second cell -/
+
+def exShared : St :=
+  ⟨(run 100 exEmpty [.extend [10, 11, 12]]).1.g ++ [(200, FIRST, 20), (200, REST, 1000)], 1002⟩
+
+def exF : Term → Bool := fun t => t == 200
+
+theorem exShared_own_wf : WF ⟨own exF exShared.g, exShared.fresh⟩ 100 ∧
+    asList (own exF exShared.g) 100 = .ok [10, 11, 12] := by
+  have h := history_refines_partial [.extend [10, 11, 12]] exEmpty 100 [] exEmpty_wf rfl rfl
+  have e : (⟨own exF exShared.g, exShared.fresh⟩ : St) = (run 100 exEmpty [.extend [10, 11, 12]]).1 := rfl
+  rw [e]
+  exact ⟨h.2.1, h.2.2⟩
+
+/-- both read as lists; the frame theorem applies to every operation through `c1` (non-vacuity of
+    `coll_separation` with a foreign part that is a list prefix hanging on `c1`'s chain) -/
+example : iter exShared.g 100 = .ok [10, 11, 12] ∧ iter exShared.g 200 = .ok [20, 11, 12] := ⟨rfl, rfl⟩
+example : ∀ op, foreign exF (step 100 exShared op).1.g = [(200, FIRST, 20), (200, REST, 1000)] := fun op =>
+  (coll_separation exF exShared 100 op rfl rfl
+    (fun n hn => by
+      have hn' : 1002 ≤ n := hn
+      show (n == 200) = false
+      exact beq_eq_false_iff_ne.mpr (fun e => by rw [e] at hn'; exact absurd hn' (by decide)))
+    exShared_own_wf.1).2.2.2
+
+/-- Two collections sharing a tail are NOT two independent Python lists: although the private prefix of
+    `c2` is untouched (frame), what `c2` denotes follows the shared cells — and deleting the shared cell
+    through `c1` cuts `c2` short without any error. -/
+def Statement_shared_tail_independent : Prop :=
+  ∀ (F : Term → Bool) (s : St) (h h2 : Term) (op : Op),
+    F h = false → F NIL = false → (∀ n, s.fresh ≤ n → F n = false) → WF ⟨own F s.g, s.fresh⟩ h →
+    F h2 = true → iter (step h s op).1.g h2 = iter s.g h2
+
+theorem shared_tail_witness : ¬ Statement_shared_tail_independent := by
+  intro H
+  have := H exF exShared 100 200 (.delItem 1) rfl rfl
+    (fun n hn => by
+      have hn' : 1002 ≤ n := hn
+      show (n == 200) = false
+      exact beq_eq_false_iff_ne.mpr (fun e => by rw [e] at hn'; exact absurd hn' (by decide)))
+    exShared_own_wf.1 rfl
+  have h1 : iter (step 100 exShared (.delItem 1)).1.g 200 = .ok [20] := rfl
+  have h2 : iter exShared.g 200 = .ok [20, 11, 12] := rfl
+  rw [h1, h2] at this
+  simp at this
+
+/-- what the shared list reads after writes through `c1`: an append and an item assignment beyond the shared
+    cell are seen through `c2` (as with shared cons cells), deleting the shared cell truncates `c2` -/
+example : iter (step 100 exShared (.append 13)).1.g 200 = .ok [20, 11, 12, 13] := rfl
+example : iter (step 100 exShared (.setItem 2 14)).1.g 200 = .ok [20, 11, 14] := rfl
+example : iter (step 100 exShared (.setItem 0 14)).1.g 200 = .ok [20, 11, 12] := rfl
+example : iter (step 100 exShared (.delItem 1)).1.g 200 = .ok [20] := rfl
+example : iter (step 100 exShared (.delItem 0)).1.g 200 = .ok [20] := rfl
+
+/-! #### a second collection that shares nothing keeps its list -/
+
+/-- `h2` names another collection of the same graph whose cells are all foreign to `h` (its rdf:rest walk
+    stays inside `F` until rdf:nil): whatever is done through `h`, `Graph.items(h2)` — hence `list`, `len`,
+    membership, `n3()` of the other collection — yields exactly what it yielded before. -/
+def Statement_disjoint_second_keeps_list : Prop :=
+  ∀ (F : Term → Bool) (s : St) (h h2 : Term) (xs : List Term) (op : Op),
+    F h = false → F NIL = false → (∀ n, s.fresh ≤ n → F n = false) →
+    WF ⟨own F s.g, s.fresh⟩ h → asList (own F s.g) h = .ok xs →
+    F h2 = true → (∀ c o, F c = true → (c, REST, o) ∈ s.g → F o = true ∨ o = NIL) →
+    items (step h s op).1.g h2 = items s.g h2
+
+theorem disjoint_second_keeps_list_partial :
+    ∀ (F : Term → Bool) (s : St) (h h2 : Term) (xs : List Term) (op : Op),
+      F h = false → F NIL = false → (∀ n, s.fresh ≤ n → F n = false) →
+      WF ⟨own F s.g, s.fresh⟩ h → asList (own F s.g) h = .ok xs → isSetAtLen xs.length op = false →
+      F h2 = true → (∀ c o, F c = true → (c, REST, o) ∈ s.g → F o = true ∨ o = NIL) →
+      items (step h s op).1.g h2 = items s.g h2 := by
+  intro F s h h2 xs op hh hn hfr wf ha hok h2F hcl
+  obtain ⟨_, e2, e3, e4⟩ := coll_separation F s h op hh hn hfr wf
+  obtain ⟨_, ⟨ps', inv'⟩, _⟩ := coll_refines_partial ⟨own F s.g, s.fresh⟩ h xs op wf ha hok
+  obtain ⟨ps, inv⟩ := wf
+  have hst : (step h ⟨own F s.g, s.fresh⟩ op).1 = ⟨own F (step h s op).1.g, (step h s op).1.fresh⟩ := by
+    rw [e2, e3]
+  rw [hst] at inv'
+  exact items_second e4 (fun p hp => ⟨value_nil_of_own_inv hn inv hp, value_nil_of_own_inv hn inv' hp⟩) h2F hcl
+
+/-- `c1 = [10]`, and a disjoint `c2 = [20]` on the cell 200 -/
+def exDisj : St := ⟨exG1 ++ [(200, FIRST, 20), (200, REST, NIL)], 1000⟩
+
+/-- with `c[len(c)] = x` (C19-K1) the statement is false: `c1[1] = 11` makes the unrelated `c2` read `[20, 11]` -/
+theorem disjoint_second_keeps_list_witness : ¬ Statement_disjoint_second_keeps_list := by
+  intro H
+  have := H exF exDisj 100 200 [10] (.setItem 1 11) rfl rfl
+    (fun n hn => by
+      have hn' : 1000 ≤ n := hn
+      show (n == 200) = false
+      exact beq_eq_false_iff_ne.mpr (fun e => by rw [e] at hn'; exact absurd hn' (by decide)))
+    ⟨_, exG1_inv⟩ rfl rfl
+    (by
+      intro c o hc hm
+      have hc' : c = 200 := by simpa [exF] using hc
+      subst hc'
+      right
+      simp [exDisj, exG1, FIRST, REST, NIL] at hm
+      simpa [NIL] using hm)
+  have h1 : items (step 100 exDisj (.setItem 1 11)).1.g 200 = ([20, 11], none) := rfl
+  have h2 : items exDisj.g 200 = ([20], none) := rfl
+  rw [h1, h2] at this
+  simp at this
 
 end RV.C19
